@@ -27,7 +27,7 @@ CLAIMED = {
  "C15": dict(
   text="Static analysis: on every path that applies a value operation and then answers, the reply's value is a GetLockData() result read before the operation in the same shard-mutex section (14 reply/operation pairs); refusal replies never follow a value operation; the operation switches are exhaustive over LOCK_DATA_COMMAND_TYPE_*; the Redis-style commands are registered in all three registries; published value frames are immutable (121 write sites in the value-operation code never target the manager's current frame). The byte surgery of each operation and the numeric results are not decided, hence 'other'.",
   note="Trusted: Go type checker, go/ssa, the explorer; slice-origin classification is flow-insensitive (may-alias through append, phis and local cells).",
-  technique="path-sensitive SSA ordering analysis + slice-origin (may-alias) classification + switch/registry exhaustiveness over the typed syntax tree, custom checker",
+  technique="path-sensitive SSA ordering analysis + slice-origin (may-alias) classification + switch/registry exhaustiveness over the typed syntax tree + def-use check of allocated frame headers, custom checker",
   ref="DESIGN.md section 4 C15"),
  "C17": dict(
   text="Static analysis: per path and per shard-mutex section of the eight engine functions (counter-writing helpers inlined), LockedCount moves iff the key depth moves and in the same direction, WaitCount++ pairs with AddWaitLock and WaitCount-- happens exactly once exactly where a queued request leaves the queue; reply count arguments originate from the manager's / hold's depth fields (42 reply sites); reference counts rise exactly for wheel insertions and ack registrations; every refCount decrement (23 sites) is followed by the zero test guarding FreeLock; RemoveLockManager clears the value and decrements KeyCount once. Magnitudes and drain-to-zero are runtime quantities and are not decided, hence 'other'.",
@@ -57,7 +57,7 @@ CLAIMED = {
  "C14": dict(
   text="Static analysis by byte-layout extraction from SSA (constant-bound loops expanded): all 20 Encode/Decode pairs of package protocol are total over the 64 positions and mutually inverse on every field byte (600 field-byte obligations), LockCommand/LockResultCommand match the README offsets (124), the server's hand-inlined lock-frame decoders (every arm) and result encoder agree with the protocol package (188), every result code has a text rendering, and text COUNT/RCOUNT are the wire value +-1. The text parser's independence of chunking, Build/Parse round trips and key normalisation are not decided, hence 'other' (the codec part is exhaustive over positions, not over values - it needs no values because each byte is copied or shifted whole).",
   note="Trusted: Go type checker, go/ssa, the layout extractor (interprets byte stores, shifts with widening check, constant-bound loops, zero fills, string regions; anything else is reported as uninterpreted, never skipped).",
-  technique="byte-layout extraction and writer/reader agreement over SSA (sibling-codec cross-check), custom checker",
+  technique="byte-layout extraction and writer/reader agreement over SSA (sibling-codec cross-check) + parser state-machine dominance and loop-carried-accumulator dataflow, custom checker",
   ref="DESIGN.md section 4 C14"),
  "C13": dict(
   text="Static analysis over a stated domain of crash sites reachable from client bytes: every index / re-slice of a text command's argument list (82 sites in 40+ handlers and converters, caller-guaranteed lengths propagated) is covered by a length test on its path; every result code has a text rendering; the four optional value pointers are dereferenced only after a non-nil test (201 sites, register-precise); value frames read from a connection or cut out of client bytes are length-tested before their 6-byte header and property header are indexed. Nine crash inputs found this way were reproduced and repaired with fix: commits. Sites outside the domain (indices through struct fields, data-dependent offsets, stride arithmetic) are counted, not claimed; overflow, allocation size, channel misuse and deadlock are not decided, hence 'other'.",
@@ -77,22 +77,22 @@ CLAIMED = {
  "C16": dict(
   text="Static analysis of the compaction code: publish-before-retire ordering of the commit step (reported as a known finding: inputs are removed before the rename; reproduced with a crash image) and no file removal elsewhere in a compaction; test-and-set serialisation of compactions under the Aof mutex with the flag cleared on every exit (deferred closure inlined); only files strictly behind the current append index become inputs; the callback drops a record only when its database is gone or HasLock is false and copies value blobs iff announced; commit only after an error-free load with the temporary file flushed and closed. State equality before/after and racing appends need a run and are not decided, hence 'other'.",
   note="Trusted: Go type checker, go/ssa, the explorer (closures inlined); os.Rename atomicity.",
-  technique="path-sensitive SSA ordering/typestate analysis of file-system effects (must-precede, test-and-set, drop-only-if guard), custom checker",
+  technique="path-sensitive SSA ordering/typestate analysis of file-system effects (must-precede, test-and-set, drop-only-if guard) + read-set / write-set agreement on the rebuilt command, custom checker",
   ref="DESIGN.md section 4 C16"),
  "C09": dict(
   text="Static analysis of the shipping path: the ring cursor's success returns require sequence continuity (everything else is 'out of buf'); unknown resume positions are answered ERR_NOT_FOUND unless they equal the current position, and the follower then zeroes its position and asks for a full transfer; Aof.PushLock publishes every appended record to the ring on every path with the ring mutex taken before the append mutex is released; the follower hands every record to its three pipelines once each in order and terminates all three on every exit; the full-transfer bound is last offset + 1 and the file transfer stops at the bound. Ring overflow under slow followers, reconnect races and snapshot convergence need running nodes and are not decided, hence 'other'.",
   note="Trusted: Go type checker, go/ssa, the explorer and its branch history.",
-  technique="path-sensitive SSA guard/typestate analysis (continuity guards, hand-over-hand lock order, channel fan-out sequence), custom checker",
+  technique="path-sensitive SSA guard/typestate analysis (continuity guards, hand-over-hand lock order, channel fan-out sequence) + flow-graph path enumeration of the sending loop with linear entailment over its size tests, custom checker",
   ref="DESIGN.md section 4 C09"),
  "C12": dict(
   text="Static analysis of the election code, acceptor side: every store to the accepted / committed numbers in the four acceptor handlers is a guarded monotone store under the voter mutex (new > accepted, new > committed, no outstanding commit; commit only for the accepted proposal), every other store site of the two numbers is a listed lifecycle site; the candidate's three rounds succeed only on a majority; a vote reply is selected only after the eligibility filter dominates the assignment; proposals are refused when the member's own log is newer. Interleavings of two candidates, message loss, the uniqueness of the winner and persistence across restarts are not decided (the candidate-side stores and save points are listed, not proven), hence 'other'.",
   note="Trusted: Go type checker, go/ssa (dominator tree), the explorer's branch history; lifecycle table in internal/rules/c12.go.",
-  technique="path-sensitive SSA guarded-monotone-store analysis + dominance check of the candidate filter + who-may-store table, custom checker",
+  technique="path-sensitive SSA guarded-monotone-store analysis + dominance check of the candidate filter + who-may-store table + who-must-call (save after commit) + file-list order dataflow, custom checker",
   ref="DESIGN.md section 4 C12"),
  "C18": dict(
   text="Static analysis of the disconnect path: Server.handle reaches the protocol's Close on every exit after a successful detection; each of the four Close methods is a test-and-set of closed under the connection mutex that takes the will queue (local copy, field cleared) before releasing it, repoints its proxies inside that section, drains from the head, and from the block that executes a popped will the only way out of the drain is the Pop that finds the queue empty (CFG reachability, helpers included); every will registration (8 sites, binary/text/forwarding) rewrites the command type to LOCK/UNLOCK before the push and calls no engine function; client-table lookups use the connection's own id, the entry is deleted only while it maps to this connection, and a closed connection never re-routes to itself. Two defects found this way were reproduced and repaired (fix: commits). Exactly-once under a close racing the drain, forwarding on a follower whose leader is unreachable and delivery after reconnect need running nodes and are not decided, hence 'other'.",
   note="Trusted: Go type checker, go/ssa, the explorer's branch history.",
-  technique="path-sensitive SSA typestate/ordering analysis of Close (test-and-set, ownership transfer under mutex, must-reach) + CFG escape analysis of the drain loop + guard check on client-table updates, custom checker",
+  technique="path-sensitive SSA typestate/ordering analysis of Close (test-and-set, ownership transfer under mutex, must-reach) + CFG escape analysis of the drain loop + guard check on client-table updates + who-may-write (closed flag) and ownership (engine-owned command) rules, custom checker",
   ref="DESIGN.md section 4 C18"),
  "C19": dict(
   text="Static analysis of the client library's wire conventions, the structural part the primitives' guarantees rest on: every client.Lock literal built by Lock, RLock, RWLock, Semaphore, MaxConcurrentFlow, PriorityLock and Event (31 literals, helper constructors inlined) carries the count / re-entrancy / flag values of its primitive (value origin against a table taken from the protocol's meaning: exclusive 0/0, RLock 0xff, readers 0xffff, n-1, priority flag, event-mode counts and wait-when-unlocked); constructors and setters store n-1 exactly for n > 0 and keep the all-ones sentinels (path facts); the 20+ Lock methods pass their own id/timeout/expiry/count/rcount in the right argument position and doLock/doUnlock/Send* fill the LOCK/UNLOCK frame from the matching quantity (same-typed swaps compile); facades forward same-named quantities; the request table is registered before the write, cleaned on failing exits and a reply is delivered once to the waiter under its own RequestId; server reply buffer and client request buffer are only touched under the connection mutex. The guarantees themselves under concurrent schedules, pipelining and reconnects need a running server and are not decided, hence 'other'.",
